@@ -73,6 +73,8 @@ type Tr struct {
 	skipped   [][2]string
 	sigmaUsed map[string]bool
 	skipUsed  map[string]bool
+	implCache map[string][]*Fn
+	noCHA     bool
 }
 
 type SigmaEntry struct {
@@ -91,7 +93,11 @@ type ctx struct {
 	top      bool // statement list is a function-level block (defer ≡ finally)
 	depth    int
 	inlining map[*Fn]bool
+	inLoop   bool
+	late     *[]*S // function level: deferred statements registered conditionally (see stmts)
 }
+
+func (c ctx) loopBody() ctx { c.top = false; c.inLoop = true; return c }
 
 func (c ctx) nested() ctx { c.top = false; return c }
 
@@ -502,6 +508,16 @@ func (t *Tr) stmts(c ctx, list []ast.Stmt) *S {
 			rest := list[i+1:]
 			if c.top || terminates(rest) {
 				out = append(out, fin(t.stmts(c, rest), ds))
+			} else if c.late != nil && !c.inLoop && selfContained(ds) {
+				// A defer registered conditionally (in a nested block that can fall
+				// through): remembered in a synthetic flag and run when the function
+				// returns. Only for deferred calls that require nothing and leave nothing
+				// behind, so that their position among the other deferred calls is
+				// immaterial for the held locks.
+				fl := t.flags.id(fmt.Sprintf("%s:defer@%d", c.fn.Name, t.line(d.Pos())))
+				*c.late = append(*c.late, &S{K: "ifFlag", L: fl, A: ds, B: skipS})
+				out = append(out, &S{K: "setFlag", L: fl, Flag: true})
+				out = append(out, t.stmts(c, rest))
 			} else {
 				out = append(out, t.guardSkip(ds, d.Pos(), "defer with a lock effect in a nested block that can fall through"))
 				out = append(out, t.stmts(c, rest))
@@ -511,6 +527,22 @@ func (t *Tr) stmts(c ctx, list []ast.Stmt) *S {
 		out = append(out, t.stmt(c, st))
 	}
 	return seqs(out...)
+}
+
+// selfContained: only calls of functions with the empty summary (and choices between them).
+func selfContained(s *S) bool {
+	if s == nil {
+		return true
+	}
+	switch s.K {
+	case "skip":
+		return true
+	case "call":
+		return len(s.Call.Callee.Req) == 0 && len(s.Call.Callee.Post) == 0
+	case "choice", "seq":
+		return selfContained(s.A) && selfContained(s.B)
+	}
+	return false
 }
 
 func (t *Tr) deferred(c ctx, d *ast.DeferStmt) *S {
@@ -684,14 +716,14 @@ func (t *Tr) stmt(c ctx, st ast.Stmt) *S {
 		init := t.stmt(c.nested(), x.Init)
 		g1 := t.guardSkip(t.expr(c, x.Cond), x.Pos(), "loop condition with lock effects")
 		g2 := t.guardSkip(t.stmt(c.nested(), x.Post), x.Pos(), "loop post statement with lock effects")
-		return seqs(init, g1, g2, loop(x.Cond != nil, t.stmts(c.nested(), x.Body.List)))
+		return seqs(init, g1, g2, loop(x.Cond != nil, t.stmts(c.loopBody(), x.Body.List)))
 	case *ast.RangeStmt:
 		if tv, ok := info.Types[x.X]; ok {
 			if _, isFunc := tv.Type.Underlying().(*types.Signature); isFunc {
 				return t.unsup(c, x.Pos(), "range over function")
 			}
 		}
-		return seq(t.expr(c, x.X), loop(true, t.stmts(c.nested(), x.Body.List)))
+		return seq(t.expr(c, x.X), loop(true, t.stmts(c.loopBody(), x.Body.List)))
 	}
 	return t.unsup(c, st.Pos(), "statement %T", st)
 }
@@ -916,11 +948,68 @@ func (t *Tr) call(c ctx, call *ast.CallExpr, isDefer bool) *S {
 	}
 	g := t.byObj[fn]
 	if g == nil {
-		return skipS // not in the translated set (or an interface method): erased
+		// Interface method: class hierarchy analysis. The call may dispatch to any
+		// translated method of that name whose receiver implements the interface
+		// (or to an implementation outside the translated files: the `skip` branch).
+		// For lock balance this changes nothing (implementations are exported
+		// methods, whose summary must be empty); it makes the locks they take
+		// visible to the acquired-while-holding relation.
+		if sel, ok := fun.(*ast.SelectorExpr); ok {
+			if s, ok := info.Selections[sel]; ok && types.IsInterface(s.Recv()) && !t.noCHA {
+				alts := skipS
+				impls := t.implementations(s.Recv(), fn.Name())
+				for i := len(impls) - 1; i >= 0; i-- {
+					alts = choice(t.line(call.Pos()), t.callTo(c, impls[i], fun, call), alts)
+				}
+				return alts
+			}
+		}
+		return skipS // not in the translated set: erased
 	}
+	return t.callTo(c, g, fun, call)
+}
+
+// implementations returns the translated methods named `name` whose receiver
+// type implements the interface type `iface`, in a stable order.
+func (t *Tr) implementations(ifaceT types.Type, name string) []*Fn {
+	iface, ok := ifaceT.Underlying().(*types.Interface)
+	if !ok {
+		return nil
+	}
+	key := types.TypeString(ifaceT, nil) + "." + name
+	if r, ok := t.implCache[key]; ok {
+		return r
+	}
+	var out []*Fn
+	for _, g := range t.fns {
+		if g.Obj == nil || g.Obj.Name() != name || g.InlineOnly {
+			continue
+		}
+		r := g.Obj.Type().(*types.Signature).Recv()
+		if r == nil {
+			continue
+		}
+		rt := r.Type()
+		if _, isPtr := rt.(*types.Pointer); !isPtr {
+			rt = types.NewPointer(rt)
+		}
+		if types.Implements(rt, iface) {
+			out = append(out, g)
+		}
+	}
+	sort.Slice(out, func(i, j int) bool { return out[i].Name < out[j].Name })
+	if t.implCache == nil {
+		t.implCache = map[string][]*Fn{}
+	}
+	t.implCache[key] = out
+	return out
+}
+
+// callTo renders a call of the translated function g.
+func (t *Tr) callTo(c ctx, g *Fn, fun ast.Expr, call *ast.CallExpr) *S {
 	// formal -> actual text
 	actual := map[string]string{}
-	sig := fn.Type().(*types.Signature)
+	sig := g.Obj.Type().(*types.Signature)
 	hasPile := false
 	if r := sig.Recv(); r != nil && r.Name() != "" && r.Name() != "_" {
 		if sel, ok := fun.(*ast.SelectorExpr); ok {
@@ -963,6 +1052,7 @@ func (t *Tr) inlineLit(c ctx, lit *ast.FuncLit, call *ast.CallExpr) *S {
 	c2 := c
 	c2.top = true
 	c2.depth++
+	c2.late = nil
 	return scope(t.stmts(c2, lit.Body.List))
 }
 
@@ -1083,8 +1173,8 @@ func (s *S) calls(acc *[]*CallSite) {
 	s.B.calls(acc)
 }
 
-// finishCalls computes, to a fixpoint, the lock names each function mentions
-// (rooted in its formals) and the renaming of every call site.
+// finishCalls computes the lock names each function mentions (rooted in its
+// formals) and the renaming of every call site.
 func (t *Tr) finishCalls() {
 	rooted := func(f *Fn, id int) bool {
 		_, ok := f.Formals[rootOf(t.nameOfLock(id))]
@@ -1106,34 +1196,31 @@ func (t *Tr) finishCalls() {
 			}
 		}
 	}
-	for changed := true; changed; {
-		changed = false
-		for _, f := range t.fns {
-			if f.Body == nil {
-				continue
+	// One pass: a call site renames the lock names that the callee's summary and
+	// body mention directly. (Names that only occur deeper in the call tree keep the
+	// callee's spelling; with recursion through interface dispatch a transitive
+	// closure would not be finite: l.pool.lock, l.Leaf.pool.lock, …)
+	for _, f := range t.fns {
+		if f.Body == nil {
+			continue
+		}
+		var cs []*CallSite
+		f.Body.calls(&cs)
+		for _, c := range cs {
+			ids := make([]int, 0, len(c.Callee.Mentions))
+			for id := range c.Callee.Mentions {
+				ids = append(ids, id)
 			}
-			var cs []*CallSite
-			f.Body.calls(&cs)
-			for _, c := range cs {
-				ids := make([]int, 0, len(c.Callee.Mentions))
-				for id := range c.Callee.Mentions {
-					ids = append(ids, id)
+			sort.Ints(ids)
+			c.Ren = c.Ren[:0]
+			for _, id := range ids {
+				nn, ok := substName(t.nameOfLock(id), c.Actual)
+				if !ok {
+					continue
 				}
-				sort.Ints(ids)
-				c.Ren = c.Ren[:0]
-				for _, id := range ids {
-					nn, ok := substName(t.nameOfLock(id), c.Actual)
-					if !ok {
-						continue
-					}
-					nid := t.lockID(t.classOfLock(id), nn)
-					if nid != id {
-						c.Ren = append(c.Ren, [2]int{id, nid})
-					}
-					if rooted(f, nid) && !f.Mentions[nid] {
-						f.Mentions[nid] = true
-						changed = true
-					}
+				nid := t.lockID(t.classOfLock(id), nn)
+				if nid != id {
+					c.Ren = append(c.Ren, [2]int{id, nid})
 				}
 			}
 		}
